@@ -87,6 +87,17 @@ func c18cBody(sc c18cScn, res *string) func(x *sched.Exec) {
 		mp := metric.NewMeterProvider(metric.WithReader(exp), metric.WithResource(rs))
 		ctr, _ := mp.Meter("m", otelmetric.WithInstrumentationVersion("v1")).Int64Counter("req")
 		ctr.Add(ctx, 1, otelmetric.WithAttributes(attribute.String("k", "a")))
+		withShutdown := false
+		for _, t := range sc.threads {
+			for _, op := range t {
+				withShutdown = withShutdown || op == "Shutdown"
+			}
+		}
+		if withShutdown {
+			// a second scope: the scrape has per-scope work left when the provider is shut down under it
+			c2, _ := mp.Meter("m2").Int64Counter("req2")
+			c2.Add(ctx, 5)
+		}
 		type out struct {
 			scrapes [][]string
 			err     error
@@ -107,6 +118,8 @@ func c18cBody(sc c18cScn, res *string) func(x *sched.Exec) {
 						outs[ti].scrapes = append(outs[ti].scrapes, s)
 					case "Add":
 						ctr.Add(ctx, 2, otelmetric.WithAttributes(attribute.String("k", "a")))
+					case "Shutdown":
+						_ = mp.Shutdown(ctx)
 					}
 				}
 			})
@@ -127,6 +140,9 @@ func c18cBody(sc c18cScn, res *string) func(x *sched.Exec) {
 				x.Fail("C18|scrape-error|concurrent", "metric could not be written: %v", o.err)
 			}
 			for _, s := range o.scrapes {
+				if withShutdown {
+					continue // a scrape that overlaps the shutdown may be complete or cut short; it must not panic (judged by the engine)
+				}
 				if strip(s) != strip(final) {
 					x.Fail("C18|inconsistent-series-under-concurrent-scrapes", "a concurrent scrape exposed\n%s\nbut a later quiescent scrape exposes\n%s", strings.Join(s, "\n"), strings.Join(final, "\n"))
 				}
@@ -164,6 +180,8 @@ func c18cScenarios() []c18cScn {
 		{"K1-default-scrape-scrape-add", func() []Option { return nil }, [][]string{{"Scrape"}, {"Scrape"}, {"Add"}}},
 		{"K2-constlabels-scrape-scrape-add", constLabels, [][]string{{"Scrape"}, {"Scrape"}, {"Add"}}},
 		{"K3-constlabels-2scrapes-each", constLabels, [][]string{{"Scrape", "Scrape"}, {"Scrape"}}},
+		{"K5-scrape-vs-provider-shutdown", func() []Option { return nil }, [][]string{{"Scrape"}, {"Shutdown"}}},
+		{"K6-constlabels-scrape-scrape-shutdown", constLabels, [][]string{{"Scrape"}, {"Scrape"}, {"Shutdown"}}},
 		{"K4-noscope-notarget", func() []Option { return []Option{WithoutScopeInfo(), WithoutTargetInfo()} }, [][]string{{"Scrape"}, {"Scrape"}, {"Add"}}},
 	}
 }
